@@ -65,11 +65,56 @@ def r81(db, ctx):
     same_src = lambda e: e == src or (is_self_matrix(e) and is_self_matrix(src))
     d_data = def_of(data)
     d_offs = def_of(offs) if offs[0] == 'v' else offs
+    # the offsets come from a private helper of self (`self.row_offsets()`): read the helper's own result
+    if d_offs is not None and d_offs[0] == 'call' and d_offs[2] == (('p', 1),):
+        gs = [g_ for g_ in db.fns.values() if g_.path.startswith('lightmotif::pwm::ScoringMatrix') and not g_.promoted_of and short(g_.path) == d_offs[1]]
+        if len(gs) == 1:
+            ge = common.return_expr_single_path_allow(gs[0])
+            if ge is not None:
+                d_offs = norm(ge)
     mnew = m(('call~', 'DenseMatrix::new', (('call~', ('DenseMatrix::rows', 'ScoringMatrix::len'), ('$s',)),)), d_data) if d_data is not None else None
     data_rows_of_src = mnew is not None and (same_src(mnew['$s']) or mnew['$s'] == ('p', 1))
     offs_per_row = d_offs is not None and any(x[0] == 'call' and x[1].endswith('DenseMatrix::iter') and same_src(norm(x[2][0])) for x in X.walk(d_offs)) \
         and d_offs[0] == 'call' and d_offs[1].endswith(('Iterator::collect', 'FromIterator::from_iter')) \
         and not any(x[0] == 'call' and x[1].rsplit('::', 1)[-1] in ('filter', 'take', 'skip', 'step_by', 'take_while', 'skip_while', 'filter_map') for x in X.walk(d_offs))
+
+    def pushed_per_row(v):
+        """v is a Vec that starts empty and receives exactly one push in every iteration of one loop over the rows of the source matrix."""
+        if v[0] != 'v':
+            return False
+        ds = f.defs().get(v[1], [])
+        if len(ds) != 1 or ds[0][1] != 'term':
+            return False
+        ini = norm(R.call(ds[0][2]))
+        if not (ini[0] == 'call' and ini[1].endswith(('Vec::with_capacity', 'Vec::new'))):
+            return False
+        pushes, others = [], 0
+        for bi_, t_ in f.calls():
+            args_ = [norm(R.at(bi_).operand(a_)) for a_ in t_['args']]
+            if not any(X.strip_refs(a_) == v for a_ in args_):
+                continue
+            c_ = f.callee_short(t_) or ''
+            if c_.endswith('Vec::push') and X.strip_refs(args_[0]) == v:
+                pushes.append((bi_, t_, args_))
+            elif c_.rsplit('::', 1)[-1] in ('len', 'iter', 'as_slice', 'deref', 'index', 'into_iter', 'is_empty', 'as_ref', 'capacity'):
+                pass
+            else:
+                others += 1
+        if len(pushes) != 1 or others:
+            return False
+        bi_, t_, args_ = pushes[0]
+        val = CA.canon(args_[1])
+        from lm import reduce as RD
+        ids = [i_ for i_ in RD.pos_ids(val) if not isinstance(i_, tuple)]
+        from . import C04
+        for lid in ids:
+            ext = CA.extents.get(lid)
+            L_ = C04._loop_with_header_or_iter(f, R, lid)
+            if ext and len(ext) == 1 and ext[0][0] == 'rows' and same_src(ext[0][1]) and L_ is not None and bi_ in L_['body'] \
+                    and all(f.dominates(bi_, lt) for lt in L_['latches']) and len(C04._normal_exits(f, L_)) == 1 \
+                    and not any(bi_ in L2['body'] and L2['header'] != L_['header'] and L2['header'] in L_['body'] for L2 in f.loops()):
+                return True
+        return False
 
     def rows_component_ok(c):
         # the number of iterations contributed by this component is the number of rows of the new matrix
@@ -81,6 +126,8 @@ def r81(db, ctx):
                 mm_ = m(('call~', ('DenseMatrix::rows', 'ScoringMatrix::len'), ('$m',)), hi)['$m']
                 return mm_ == data or ((same_src(mm_) or mm_ == ('p', 1)) and data_rows_of_src)
         if c[0] == 'len' and c[1] == offs and offs_per_row and data_rows_of_src:
+            return True
+        if c[0] == 'len' and c[1] == offs and data_rows_of_src and pushed_per_row(offs):
             return True
         return False
 
